@@ -267,10 +267,7 @@ def raw_signature(tool, rc, sig, err_text, hang, variant, binname):
                         frames.append((m2.group(1), m2.group(2)))
                     return ("valgrind", _slug(what), tuple(frames))
             return ("valgrind", "error-exitcode", ())
-        if sig:
-            return ("signal", sig, ())
-        if rc not in OK_EXIT:
-            return ("exit", rc)
+        # signals / aborts / exit codes of the plain binaries are the sanitizer pass's business, not the memcheck slice's
         return None
     m = _UB.search(t)
     ma = _AS.search(t)
@@ -561,7 +558,7 @@ def work(item):
             dg = hashlib.md5(("%s|" % rc).encode() + so + b"|" + se).hexdigest()[:12]
         else:
             dg = "V" + hashlib.md5(repr(rs).encode()).hexdigest()[:11]
-        out.append((d, v, c["tool"], c["base"], c["kind"], ih, size, rc, rs, dg, _diag(rc, set_), ms))
+        out.append((d, v, c["tool"], c["base"], c["kind"], ih, size, rc, rs, dg, _diag(rc, set_), ms, c["stdin"] == ""))
         v = _next_variant(v, rs)
         if v is None:
             break
@@ -617,7 +614,7 @@ def enumerate_space(ctx, bases, txs):
                 items.append((("D", bi, si, di), "asan"))
                 n_single += 1
     # pairs: pair-marked bases with at least two slots, smallest first, while the budget of the tier lasts
-    budget = 9000 if tier == "quick" else 10 ** 9
+    budget = 6500 if tier == "quick" else 10 ** 9
     pb = sorted([bi for bi, b in enumerate(bases) if b.pair and bi in per_all], key=lambda bi: (bases[bi].size(), bases[bi].id))
     pair_bases = []
     for bi in pb:
@@ -733,6 +730,8 @@ def run(ctx):
         random.Random(ctx.seed).shuffle(ks)
         items = [it for k in ks for it in blocks[k]]
     scratch = tempfile.mkdtemp(prefix="c15-", dir=ctx.bdir)
+    tm = os.times()
+    cpu0 = tm.children_user + tm.children_system
     ncpu = os.cpu_count() or 4
     results = []
     t_enum = time.time() - t0
@@ -768,23 +767,41 @@ def run(ctx):
                 (d, v, tool, base, kind, ih, size, rc, rs, dg, diag) = r[:11]
                 if rs is None:
                     continue
-                g = groups.setdefault((tool, v, rs), [0, None, None])
+                g = groups.setdefault((tool, v, rs), [0, []])
                 g[0] += 1
-                # representative = smallest input; an input for the tool's own binary is preferred over the argv-mode harness form
-                rank = (1 if (d[0] in ("B", "D", "P") and bases[d[1]].mode == "argv") else 0, size)
-                if g[1] is None or rank < g[1]:
-                    g[1], g[2] = rank, (d, v)
+                # representatives = the smallest inputs; an input for the tool's own binary is preferred over the argv-mode
+                # harness form, and empty stdin (btcdeb then parses an uninitialised buffer: not reproducible) comes last
+                rank = (1 if r[12] else 0, 1 if (d[0] in ("B", "D", "P") and bases[d[1]].mode == "argv") else 0, size)
+                g[1].append((rank, d))
+                if len(g[1]) > 8:
+                    g[1].sort(key=lambda x: (x[0], repr(x[1])))
+                    del g[1][3:]
             glist = sorted(groups.items(), key=lambda kv: repr(kv[0]))
-            sym = pool.map(work_sym, [(gi, g[1][2][0], g[1][2][1]) for gi, g in enumerate(glist)], chunksize=1)
+            for kv in glist:
+                kv[1][1].sort(key=lambda x: (x[0], repr(x[1])))
+                del kv[1][1][3:]
+            sym = [None] * len(glist)
+            n_sym = 0
+            for attempt in range(3):
+                todo = [(gi, g[1][1][attempt][1], g[0][1]) for gi, g in enumerate(glist)
+                        if (sym[gi] is None or sym[gi][1] is None) and len(g[1][1]) > attempt]
+                n_sym += len(todo)
+                for res in pool.map(work_sym, todo, chunksize=1):
+                    if sym[res[0]] is None or res[1] is not None:
+                        sym[res[0]] = res
     finally:
         shutil.rmtree(scratch, ignore_errors=True)
+    tm = os.times()
+    cpu_children = tm.children_user + tm.children_system - cpu0
     # ---- violations by key
     by_key = {}
     for (gi, key, c, exc, rc, sig) in sym:
-        (tool, v, rs), (cnt, size, dv) = glist[gi]
+        (tool, v, rs), (cnt, cands) = glist[gi]
+        size = cands[0][0]
         if key is None:
-            # the symbolised re-run did not reproduce the report: keep the raw signature as key (flaky = itself a finding)
-            key = _safe("%s:unreproduced:%s" % (tool, _slug(repr(rs), 80)))
+            # none of the (up to three) symbolised re-runs reproduced the report: a flaky outcome is itself a finding;
+            # the key carries the report class only (module offsets would not be stable across builds)
+            key = _safe("%s:unreproduced:%s" % (tool, _slug(":".join(str(x) for x in rs[:3] if isinstance(x, str)), 80)))
         e = by_key.setdefault(key, dict(count=0, size=None))
         e["count"] += cnt
         if e["size"] is None or size < e["size"]:
@@ -804,7 +821,7 @@ def run(ctx):
                        "variant": e["variant"], "base": c["base"], "deviation": "%s: %s" % (c["kind"], c["desc"]), "key": key},
         })
     # ---- coverage
-    evaluations = len(results) + len(sym)
+    evaluations = len(results) + n_sym
     inputs = {}
     for r in results:
         (d, v, tool, base, kind, ih, size, rc, rs, dg, diag) = r[:11]
@@ -863,14 +880,14 @@ def run(ctx):
         "processes_per_tool": per_tool,
         "processes_per_deviation_kind": dict(sorted(per_kind.items())),
         "processes_per_variant": per_variant,
-        "symbolising_reruns": len(sym),
+        "symbolising_reruns": n_sym,
         "distinct_outcome_classes": len(outcomes),
         "exit_histogram": dict(sorted(rc_hist.items())),
         "runs_ending_in_a_violation": n_viol_runs,
         "distinct_raw_report_signatures": len(glist),
         "distinct_violation_keys": len(violations),
         "wall_enumerate_s": round(t_enum, 1), "wall_main_s": round(t_main, 1), "wall_total_s": round(wall, 1),
-        "cpus": ncpu,
+        "cpus": ncpu, "cpu_s_workers_and_children": round(cpu_children, 1),
         "process_ms_total": sum(r[11] for r in results),
         "slowest_processes": [{"ms": r[11], "tool": r[2], "base": r[3], "deviation": r[4], "variant": r[1]} for r in slow],
     }
